@@ -9,7 +9,7 @@ from .. import core, tracecheck
 
 MC = """CONSTANTS Losses = {%s}
 Variants = {"plain", "param", "obs", "both"}
-Modes = {"eager", "jit", "vg"}
+Modes = {"eager", "jit", "jitarg", "vg"}
 Gens = {%s}
 MaxLen = %d
 Impure = %s
@@ -106,7 +106,7 @@ def run(tier, seed):
                    rule="MC: Purity.tla all call orders (length <= 3) over losses x batch variants x modes x generator states, ArgsUnchanged; "
                         "witness Impure=TRUE must violate it; replay: for each loss (ODE, stationary, non-stationary, ODE system, stationary and "
                         "non-stationary PDE systems, tanh MLP) all orders of length L over {plain, parameter batch, observation batch} x "
-                        "{eager, jit, value-and-grad} + draws, sampled by VERIF_SEED; every generator kind drawn eagerly and under jit from "
+                        "{eager, jit closing over the loss, jit with the loss as an argument, value-and-grad} + draws, sampled by VERIF_SEED; every generator kind drawn eagerly and under jit from "
                         "fresh and re-used states; fingerprints = structure + array bytes + user dictionaries")
         core.write_evidence("C20", tier, seed, "model_checking", cov,
                             ["bitwise comparison across eager/jit/value-and-grad only on exact-arithmetic (polynomial, x64) problems; the tanh MLP problem is "
